@@ -286,7 +286,8 @@ def execOp (σ : DbModel) (db : Database) (tx : Txn) (op : Operation) :
         | .ok mu =>
           -- the uuid must be free in the database (defect D57: the update could not be committed)
           if (get? (db.rows op.table) op.uuid).isSome then .error "constraint violation"
-          else .ok ({ uuid := op.uuid }, tx, [((op.table, op.uuid), mu)])
+          -- a row inserted and deleted earlier in this transaction is back (defect D73: it stayed hidden)
+          else .ok ({ uuid := op.uuid }, { tx with deleted := tx.deleted.filter (· != op.uuid) }, [((op.table, op.uuid), mu)])
         | .error e => .error (errStr e)
   else if op.op = "select" then
     match σ.table op.table with
